@@ -129,7 +129,7 @@ def per_path(ctx, po, sh):
 def body(ctx):
     ctx.cov['outside_claim'] = ['flattened child / parent mappings (C03)', 'enums (C02)', 'form-inconsistent configurations (see C17)', 'runtime values: the slot map is read off the generated tokens, which rustc then executes']
     ctx.assumptions = ['designation oracle = DESIGN.md Appendix B (README rules); decoder is structural', 'predicted tokens == real tokens (validated natively per path)']
-    expander.sweep(ctx, ['flat', 'ghosts', 'params'], per_path)
+    expander.sweep(ctx, ['flat', 'ghosts', 'params'], per_path, judge_native=True)
 
 
 if __name__ == '__main__':
